@@ -1165,7 +1165,8 @@ fn cmd_c07(seed: u64, n: u64, ops_path: &str, impl_path: &str) -> Result<()> {
                 "unknown-name"
             }
             5 => {
-                g.extra_import = Some((format!("shopify_function_v{}", [1u64, 3, 10, 20][rng.below(4) as usize]), "shopify_function_input_get".into()));
+                let spellings = ["1", "3", "10", "20", "02", "002", "+2", "2x", "2.0", "22", "", "0x2", "2_", "-2"];
+                g.extra_import = Some((format!("shopify_function_v{}", spellings[(i as usize / 15) % spellings.len()]), "shopify_function_input_get".into()));
                 "other-version"
             }
             6 => {
@@ -1284,6 +1285,10 @@ fn cmd_c07(seed: u64, n: u64, ops_path: &str, impl_path: &str) -> Result<()> {
                 writeln!(imp, "reject {}", classify(&format!("{:#}", e)))?;
             }
             Ok(out) => {
+                if vname == "other-version" {
+                    // the property, not the model: only the one documented module name is the API
+                    failures.push(format!("case {} ({}): accepted a module that imports from `{}`", i, vname, g.extra_import.as_ref().map(|x| x.0.clone()).unwrap_or_default()));
+                }
                 if vname == "unknown-name" || vname == "unknown-non-function" {
                     // the property, not the model: a name that is in no table of the ABI is refused
                     let n = g.extra_import.as_ref().map(|x| x.1.clone()).or(g.extra_nonfunc.as_ref().map(|x| x.0.clone())).unwrap_or_default();
@@ -1478,6 +1483,18 @@ fn cmd_abi(out: &str, candidates: &[String]) -> Result<()> {
             }
         }
     }
+    // 2c. module names that look like the API namespace: which ones does the tool accept (and treat as what)?
+    let mut mod_accepted: Vec<String> = Vec::new();
+    for sp in ["1", "3", "10", "20", "02", "002", "+2", "2x", "2.0", "22", "", "0x2", "2_", "-2", " 2", "2 "] {
+        let mname = format!("shopify_function_v{}", sp);
+        if mname == API_MODULE {
+            continue;
+        }
+        let a0 = &api[0];
+        if run(&[(mname.clone(), a0.name.clone(), a0.sig.clone())]).is_ok() {
+            mod_accepted.push(mname);
+        }
+    }
     // 3. low-level names inside the API namespace the tool tolerates (its own output must be accepted again)
     let mut cands: Vec<String> = emits.iter().map(|(n, _)| n.clone()).collect();
     for c in candidates {
@@ -1521,6 +1538,7 @@ fn cmd_abi(out: &str, candidates: &[String]) -> Result<()> {
     s.push_str(&tbl("trampolineEmits", "every provider import in the output for a guest importing the whole API", &emits));
     writeln!(s, "/-- low-level names tolerated inside the API namespace -/\ndef trampolineAllowList : List (List Nat) := [{}]", allow.iter().map(|a| name_lit(a)).collect::<Vec<_>>().join(", ")).unwrap();
     writeln!(s, "/-- imports that are only renamed: (public name, name in the output) -/\ndef toolRenames : List (List Nat × List Nat) := [\n  {}\n]", renames.iter().map(|(a, b)| format!("({}, {})", name_lit(a), name_lit(b))).collect::<Vec<_>>().join(",\n  ")).unwrap();
+    writeln!(s, "/-- import module names of the form shopify_function_v<something> other than the API's that the tool accepts -/\ndef toolAcceptsOtherModuleNames : List (List Nat) := [{}]", mod_accepted.iter().map(|a| name_lit(a)).collect::<Vec<_>>().join(", ")).unwrap();
     writeln!(s, "/-- functions the tool insists on a signature for, yet accepts when imported twice with the public and a perturbed signature (either order) -/\ndef toolAcceptsDupBadSig : List (List Nat) := [{}]", dup_accepted.iter().map(|a| name_lit(a)).collect::<Vec<_>>().join(", ")).unwrap();
     writeln!(s, "/-- function imports left in the API namespace after trampolining the whole API -/\ndef toolLeftInApi : List (List Nat) := [{}]", left.iter().map(|a| name_lit(a)).collect::<Vec<_>>().join(", ")).unwrap();
     s.push_str("end SfVerif.Gen\n");
